@@ -92,13 +92,20 @@ def stream_serialize_vlq(f: BinaryIO, i: int) -> None:
 def stream_deserialize_vlq(f: BinaryIO) -> int:
     """ """
     result = 0
+    bytes_read = 0
 
     while True:
         (b,) = struct.unpack(b"B", safe_read(f, 1))
+        bytes_read += 1
 
         result += (b % 128)
 
         if b < 128:
+            # Only the encoding that stream_serialize_vlq produces is accepted. Other spellings of the same number
+            # (extra leading 0x80 octets, or a shorter form) would give identical content a second serialization, and
+            # hashes are calculated over the serialization as received.
+            if bytes_read != (result.bit_length() // 7) + 1:
+                raise DeserializationError("Non-canonical VLQ")
             return result
 
         result *= 128
